@@ -25,6 +25,19 @@ class Unsupported(BaseException):
     """operation outside the encoding; path is counted as unsupported"""
 
 
+REPO_SRC = os.environ.get("VERIF_REPO_SRC", "/repo/")
+
+
+def raised_in_repo(ex):
+    """innermost traceback frame of `ex` lies in the repository under test"""
+    tb = ex.__traceback__
+    last = None
+    while tb is not None:
+        last = tb
+        tb = tb.tb_next
+    return last is not None and os.path.abspath(last.tb_frame.f_code.co_filename).startswith(REPO_SRC)
+
+
 class HarnessError(Exception):
     pass
 
@@ -748,6 +761,18 @@ class Ctx:
                     self.result.aborted += 1
                 except Unsupported as u:
                     self.result.unsupported.append(str(u))
+                except HarnessError:
+                    raise
+                except Exception as ex:  # noqa
+                    # an exception that escapes from the CODE UNDER TEST (innermost frame inside the repository) on a
+                    # feasible path is a counterexample of the implicit claim "returns on every in-domain input"
+                    # (label D-RAISE), replayed like any other; exceptions from the harness / engine stay harness errors
+                    if not raised_in_repo(ex):
+                        raise
+                    try:
+                        self._record_raise(ex)
+                    except PathAbort:
+                        self.result.aborted += 1
                 finally:
                     self._end_run()
         finally:
@@ -1080,6 +1105,24 @@ class Ctx:
             # inputs keep their names under the operator abstraction: the model is a candidate counterexample
             return r, self._model_dict(s2.model())
         return r
+
+    def _record_raise(self, ex, label="D-RAISE"):
+        info = f"raised {type(ex).__name__}: {ex}"[:300]
+        res = self.result
+        res.obligations += 1
+        lab = res.by_label.setdefault(label, dict(n=0, ok=0, sat=0, unknown=0))
+        lab["n"] += 1
+        m = self.path_model()
+        if m is None:
+            raise PathAbort()
+        lab["sat"] += 1
+        if sum(1 for c in res.cex if c["label"] == label) < self.max_cex_per_label:
+            md = self._model_dict(m)
+            for nm, s in self.inputs.items():
+                md.setdefault(nm, eval_model(m, s))
+            res.cex.append(dict(label=label, model=md, info=info, decisions=list(self.taken),
+                                notes=list(self.path_note)))
+        res.paths += 1
 
     def noraise(self, label, fn, *a, **k):
         """claim: fn(*a, **k) (real code) returns without raising on this path. An exception is a counterexample
